@@ -59,6 +59,9 @@ type CompScenario struct {
 	// CbStop: stop | cancel | "" - issued from inside the callback of the first Reload(); the callback then waits until
 	// Run() has returned before it hands out the configuration, so that the reload's restart boots after the return
 	CbStop string `json:"cbStop,omitempty"`
+	// CbFail: child CbFail-1 is made to fail (real error) from inside the callback of the first Reload(), and the
+	// callback then waits for Run() to return: a failure propagates while a reload is parked in user code
+	CbFail int `json:"cbFail,omitempty"`
 	// SlowPublish: the publication of the state Reloading to the state subscribers is delayed by 3 ms (see publishDelay)
 	SlowPublish bool `json:"slowPublish,omitempty"`
 }
@@ -211,7 +214,7 @@ func runCompScenario(sc CompScenario) compResult {
 	var cbCount, wantRunning atomic.Int32
 	var injected atomic.Bool // a child was made to exit by itself: fewer children than configured is then expected
 	var runnerRef atomic.Pointer[composite.Runner[supervisor.Runnable]]
-	var cbStopFn atomic.Pointer[func()]
+	var cbStopFn, cbFailFn atomic.Pointer[func()]
 	cb := func() (*composite.Config[supervisor.Runnable], error) {
 		k := int(cbCount.Add(1)) - 1
 		if k == 0 && sc.BootReload {
@@ -221,6 +224,11 @@ func runCompScenario(sc CompScenario) compResult {
 				rp.Reload(rc)
 				rcancel()
 				rec.add("LT90:%s", rp.GetState())
+			}
+		}
+		if k == 1 && sc.CbFail > 0 {
+			if f := cbFailFn.Load(); f != nil {
+				(*f)()
 			}
 		}
 		if k == 1 && sc.CbStop != "" {
@@ -280,6 +288,31 @@ func runCompScenario(sc CompScenario) compResult {
 		}
 	}
 	cbStopFn.Store(&cbStop)
+	cbFail := func() {
+		c := sc.CbFail - 1
+		children[c].mu.Lock()
+		running := children[c].running && children[c].active == 1
+		children[c].mu.Unlock()
+		if !running {
+			return
+		}
+		injected.Store(true)
+		rec.addIf(func() bool {
+			select {
+			case children[c].failCh <- "e":
+				return true
+			default:
+				return false
+			}
+		}, "FX%d:%s", c, "e")
+		select { // the failure must end Run() although this reload is still fetching its configuration
+		case <-runDone:
+			rec.add("CW:done")
+		case <-time.After(400 * time.Millisecond):
+			rec.add("CW:timeout")
+		}
+	}
+	cbFailFn.Store(&cbFail)
 	// the yield hook: inject Stop/cancel between setConfig and boot of a restart reload
 	var yielded atomic.Bool
 	compositeYield.Store(&yieldFn{f: func(point string) {
@@ -663,6 +696,14 @@ func genCompScenario(r interface {
 }
 
 var compCorpus = []CompScenario{
+	// a child fails while a Reload() is parked in the configuration callback: Run() returns the failure without waiting
+	// for the reload
+	{Pool: []ChildSpec{{"a", "f", "wc", 0, 0}, {"b", "f", "wc", 0, 0}},
+		Configs: []CompConfig{{"ok", []CompEntry{{0, 1}, {1, 1}}}, {"ok", []CompEntry{{0, 2}, {1, 2}}}},
+		Ops:     []CompOp{{0, "reload"}}, CbFail: 2},
+	{Pool: []ChildSpec{{"a", "l", "wc", 0, 0}, {"b", "l", "r", 0, 0}, {"c", "f", "-", 0, 0}},
+		Configs: []CompConfig{{"ok", []CompEntry{{0, 1}, {1, 1}}}, {"ok", []CompEntry{{0, 1}, {2, 1}}}},
+		Ops:     []CompOp{{0, "reload"}}, CbFail: 1},
 	// a child fails while a Reload() has just changed the state: the subscribers see Reloading before Error
 	{Pool: []ChildSpec{{"a", "f", "wc", 0, 0}, {"b", "f", "wc", 0, 0}},
 		Configs: []CompConfig{{"ok", []CompEntry{{0, 1}, {1, 1}}}, {"ok", []CompEntry{{0, 2}, {1, 2}}}},
